@@ -223,6 +223,37 @@ pub fn det_one(idx: usize, seed: u64) {
     println!("{}", digest(&obs));
 }
 
+/// entry point of a process that compiles several projects one after the other: prints the digest of the last
+pub fn det_seq(idxs: &[usize]) {
+    let projs = all_projects();
+    let scratch = crate::oracle::Scratch::new("det-seq");
+    let _ = std::env::set_current_dir(&scratch.empty);
+    set_seed(0);
+    std::panic::set_hook(Box::new(|_| {}));
+    let mut last = String::new();
+    for idx in idxs {
+        let proj = &projs[*idx];
+        // every project in the same two directories: what a process keeps from one compilation meets the next one under the same paths
+        let root = scratch.root.join("proj");
+        let outdir = scratch.root.join("out");
+        let _ = std::fs::remove_dir_all(&root);
+        let _ = std::fs::remove_dir_all(&outdir);
+        std::fs::create_dir_all(&root).unwrap();
+        std::fs::create_dir_all(&outdir).unwrap();
+        let order: Vec<usize> = (0..proj.files.len()).collect();
+        materialize(&root, proj, &order);
+        let obs: Vec<(String, String)> = observe(&root, &outdir, proj).into_iter().map(|(k, v)| (k, v.replace(&scratch.root.to_string_lossy().to_string(), "<ROOT>"))).collect();
+        last = digest(&obs);
+    }
+    println!("{}", last);
+}
+
+/// the projects of the warm-process histories: the fixed projects that share package names with each other
+fn warm_set(quick: bool) -> Vec<usize> {
+    let n = n_fixed().min(if quick { 14 } else { 30 });
+    (0..n).collect()
+}
+
 pub struct Determinism;
 
 impl Family for Determinism {
@@ -236,16 +267,58 @@ impl Family for Determinism {
         300
     }
     fn rule(&self) -> &'static str {
-        "projects = 8 corpus projects + 6 generated + 4 ill-typed variants + 2 projects with several diagnostics / several impls + 74 single-file corpus programs + one project per import DAG on 5 packages in which Main reaches every package (10 possible edges; <= 4 edges, plus the 5-edge ones in one naming, in quick; all in thorough) x 2 directory namings (alphabetical order agreeing with / opposing the topological order) x {well-typed, every leaf ill-typed, every leaf declaring a wrong package name}; for each: hash seeds 0..15 (quick) / 0..127 (thorough) (DAG projects: 0..7 / 0..31) x 2 file creation orders x {whole-program compile, separate build+link through files, and for every non-Main package X the links that must fail: X's core left out, X rebuilt alone with one more exported item so that all its dependents are stale at once, cores offered in build order and reversed} in this process, plus a second process for seeds 0 and 1, plus 4 spellings of the entry path (bare file name and ./ from inside the project directory, dir/main.gom from its parent, ../dir/main.gom); first an audit that every std hash collection of the compiler crate is imported through the seeded seam and that no clock / random / environment / thread source appeared; observables: Go text, Core/Mono/Lift/ANF dumps, ordered diagnostics, .interface/.core JSON (incl. interface hashes); oracle: byte-identical to the seed-0 baseline. Non-vacuity: the number of distinct package discovery orders produced by the seeds is measured per project. non-trivial = projects for which the seeds produced more than one iteration order of a seeded set of its package names (measured); distinct = distinct (project, seed, order)"
+        "projects = 8 corpus projects + 6 generated + 4 ill-typed variants + 2 projects with several diagnostics / several impls + 74 single-file corpus programs + one project per import DAG on 5 packages in which Main reaches every package (10 possible edges; <= 4 edges, plus the 5-edge ones in one naming, in quick; all in thorough) x 2 directory namings (alphabetical order agreeing with / opposing the topological order) x {well-typed, every leaf ill-typed, every leaf declaring a wrong package name}; for each: hash seeds 0..15 (quick) / 0..127 (thorough) (DAG projects: 0..7 / 0..31) x 2 file creation orders x {whole-program compile, separate build+link through files, and for every non-Main package X the links that must fail: X's core left out, X rebuilt alone with one more exported item so that all its dependents are stale at once, cores offered in build order and reversed} in this process, plus a second process for seeds 0 and 1, plus warm-process histories (a fresh process compiles project X and then project Y, and Y, X, Y, in the same two directories, for all ordered pairs of the first 14 / 30 fixed projects: Y's observables must equal those of a process that compiled only Y), plus 4 spellings of the entry path (bare file name and ./ from inside the project directory, dir/main.gom from its parent, ../dir/main.gom); first an audit that every std hash collection of the compiler crate is imported through the seeded seam and that no clock / random / environment / thread source appeared; observables: Go text, Core/Mono/Lift/ANF dumps, ordered diagnostics, .interface/.core JSON (incl. interface hashes); oracle: byte-identical to the seed-0 baseline. Non-vacuity: the number of distinct package discovery orders produced by the seeds is measured per project. non-trivial = projects for which the seeds produced more than one iteration order of a seeded set of its package names (measured); distinct = distinct (project, seed, order)"
     }
     fn cases(&self, tier: Tier) -> Box<dyn Iterator<Item = Value> + '_> {
         let nf = n_fixed();
         let specs = dag_specs();
         let dag: Vec<usize> = specs.iter().enumerate().filter(|(_, sp)| dag_in_tier(sp, tier == Tier::Quick)).map(|(i, _)| nf + i).collect();
-        Box::new(std::iter::once(json!({"kind": "seam-audit"})).chain((0..nf).chain(dag.into_iter()).map(|i| json!({"project": i}))))
+        // a process that has compiled one project compiles another one (all ordered pairs, and back to the first)
+        let warm: Vec<Value> = warm_set(tier == Tier::Quick).into_iter().map(|i| json!({"kind": "warm-process", "first": i})).collect();
+        Box::new(std::iter::once(json!({"kind": "seam-audit"})).chain(warm.into_iter()).chain((0..nf).chain(dag.into_iter()).map(|i| json!({"project": i}))))
     }
     fn run(&self, case: &Value, ctx: &mut Ctx) -> Report {
         let mut rep = Report::default();
+        if case["kind"] == "warm-process" {
+            let first = case["first"].as_u64().unwrap() as usize;
+            let exe = std::env::current_exe().unwrap();
+            let run = |idxs: &[usize]| -> Option<String> {
+                let args: Vec<String> = std::iter::once("det-seq".to_string()).chain(idxs.iter().map(|i| i.to_string())).collect();
+                std::process::Command::new(&exe).args(&args).output().ok().map(|o| String::from_utf8_lossy(&o.stdout).trim().to_string())
+            };
+            let projs = all_projects();
+            let set = warm_set(ctx.tier == Tier::Quick);
+            let fresh: Vec<Option<String>> = set.iter().map(|j| run(&[*j])).collect();
+            let mut n = 0u64;
+            for (k, j) in set.iter().enumerate() {
+                if *j == first {
+                    continue;
+                }
+                for hist in [vec![first, *j], vec![*j, first, *j]] {
+                    n += 1;
+                    let got = run(&hist);
+                    match (&fresh[k], &got) {
+                        (Some(f), Some(g)) if !f.is_empty() && f == g => rep.tag("warm:agrees"),
+                        (Some(f), Some(g)) if !f.is_empty() && !g.is_empty() => {
+                            rep.more_keys.push(n);
+                            rep.findings.push(Finding {
+                                property: "C13",
+                                class: "nondeterministic.warm-process".into(),
+                                site: format!("after={};project={};history-length={}", projs[first].name, projs[*j].name, hist.len()),
+                                detail: format!("a process that had compiled {:?} before produced digest {} for {} instead of {}", hist[..hist.len() - 1].iter().map(|i| projs[*i].name.clone()).collect::<Vec<_>>(), g, projs[*j].name, f),
+                                replay: json!({"kind": "determinism-history", "projects": hist.iter().map(|i| projs[*i].name.clone()).collect::<Vec<_>>(), "indices": hist}),
+                            });
+                        }
+                        _ => rep.tag("machinery:warm-process-failed"),
+                    }
+                }
+            }
+            rep.sub_evaluations = n;
+            rep.nontrivial_key = Some(format!("warm:{}", projs[first].name));
+            rep.outcome = Some(format!("warm:{}", projs[first].name));
+            rep.sample = Some(json!({"first": projs[first].name, "histories": n}));
+            return rep;
+        }
         if case["kind"] == "seam-audit" {
             return seam_audit();
         }
